@@ -7,6 +7,7 @@ import Proofs.C04
 import Proofs.C18Multi
 import Proofs.C18Flat
 import Proofs.C18Joined
+import Proofs.C18Explode
 import Flatland.Spec.C18
 import Flatland.Generated.C04Tables
 namespace Flatland.C18.Proofs
@@ -109,6 +110,13 @@ theorem date_explode (E : Env) (hT : E.T.OK) (c : DateCfg) (hc : c.Integers) (s 
   rcases hx with hx | ⟨h, mi, sec, us, hx⟩ <;>
     simp [DateState.step, DateState.toElem, DateCfg.schema, Flatland.C04.setElem, hx, hky, hkm, hkd,
       Flatland.C04.Proofs.scalarSetTrace_eq, setScalar_int_member, fy, fm, fd, DateState.ofElem]
+
+/-- non-vacuity of `Flatland.C18.Explode.Proofs.date_explode_all_members`: its hypothesis (a completed
+    whole-element set with a value that denotes a date) holds e.g. for the generated members -/
+example (E : Env) (hT : E.T.OK) (s : DateState) (x : Native) (y m d : Nat) (hv : validDate y m d = true)
+    (hx : adapt E (.date true) x = .ok (some (.date y m d))) : ∃ s' ret, s.step E {} (.set x) = .ok (s', ret) := by
+  obtain ⟨s', h, _⟩ := date_explode E hT {} ⟨⟨true, 4, rfl⟩, ⟨true, 2, rfl⟩, ⟨true, 2, rfl⟩⟩ s x y m d hv (Or.inl hx)
+  exact ⟨s', _, h⟩
 
 theorem findSome_map_ok {α β} (f : Except Raise β → Option α) (hf : ∀ r, f (.ok r) = none)
     (rs : List β) : (rs.map Except.ok).findSome? f = none := by
